@@ -854,4 +854,62 @@ theorem mulAssign_mapK {φ : M → N} (hφ : Function.Injective φ) (h1 : φ 1 =
 
 end KeyMapPoly
 
+/-! ### `HPoly`: the denoted polynomial `coeff · X^deg` as a coefficient function -/
+section HPolyProofs
+variable {R : Type} [DecidableEq R] [CommRing R]
+
+def hval (a : HPoly R) (n : Nat) : R := if a.deg = n then a.coeff else 0
+
+theorem hval_zero_of_coeff {a : HPoly R} (h : a.coeff = 0) (n : Nat) : hval a n = 0 := by
+  simp [hval, h]
+
+theorem hpoly_eqv_iff_val (a b : HPoly R) : a.eqv b = true ↔ ∀ n, hval a n = hval b n := by
+  unfold HPoly.eqv
+  by_cases h0 : a.coeff = 0 ∧ b.coeff = 0
+  · simp only [h0, and_self, if_true, true_iff]
+    intro n; rw [hval_zero_of_coeff h0.1, hval_zero_of_coeff h0.2]
+  · rw [if_neg h0]
+    simp only [Bool.and_eq_true, beq_iff_eq, decide_eq_true_eq]
+    constructor
+    · rintro ⟨hd, hc⟩ n; simp [hval, hd, hc]
+    · intro h
+      by_cases ha : a.coeff = 0
+      · have hb : b.coeff ≠ 0 := fun e => h0 ⟨ha, e⟩
+        have := h b.deg
+        simp [hval, ha] at this
+        exact absurd this.symm hb
+      · have h1 := h a.deg
+        simp only [hval, if_true] at h1
+        by_cases hd : b.deg = a.deg
+        · simp only [hd, if_true] at h1; exact ⟨hd.symm, h1⟩
+        · simp only [hd, if_false] at h1; exact absurd h1 ha
+
+theorem hpoly_add_val {a b c : HPoly R} (h : a.add b = Res.ok c) (n : Nat) :
+    hval c n = hval a n + hval b n := by
+  unfold HPoly.add HPoly.isZero at h
+  by_cases ha : a.coeff = 0
+  · simp only [ha, decide_true, if_true, Res.ok.injEq] at h
+    subst h; simp [hval_zero_of_coeff ha]
+  · by_cases hb : b.coeff = 0
+    · simp only [ha, hb, decide_false, decide_true, if_true, Res.ok.injEq] at h
+      have h' : a = c := by simpa using h
+      subst h'; simp [hval_zero_of_coeff hb]
+    · by_cases hd : a.deg = b.deg
+      · simp only [ha, hb, hd, decide_false, if_true, Res.ok.injEq] at h
+        have h' : (⟨b.deg, a.coeff + b.coeff⟩ : HPoly R) = c := by simpa using h
+        subst h'
+        by_cases hn : b.deg = n <;> simp [hval, hd, hn]
+      · simp [ha, hb, hd] at h
+
+theorem hpoly_add_panic_iff (a b : HPoly R) :
+    a.add b = Res.panic ↔ a.coeff ≠ 0 ∧ b.coeff ≠ 0 ∧ a.deg ≠ b.deg := by
+  unfold HPoly.add HPoly.isZero
+  by_cases ha : a.coeff = 0
+  · simp [ha]
+  · by_cases hb : b.coeff = 0
+    · simp [ha, hb]
+    · by_cases hd : a.deg = b.deg <;> simp [ha, hb, hd]
+
+end HPolyProofs
+
 end Yuiv.C16
